@@ -139,4 +139,6 @@ def _(c):
               label='one-row-per-time-point')
     c.ensures('same_array(result.timepoints, timepoints)', label='time-axis-is-the-request')
     c.ensures('arr(sim.initial_state) == old(arr(sim.initial_state))', label='initial-condition-untouched')
+    c.ensures('arr(sim.update_array) == old(arr(sim.update_array)) and arr(sim.delay_update_array) == old(arr(sim.delay_update_array))',
+              label='model-stoichiometry-untouched')
     c.opt(result_class='DelaySSAResult')
